@@ -196,6 +196,10 @@ type obs struct {
 	parents  map[string][]string
 	desc     map[string][]string
 	byKind   map[string][]string
+	// edgesBy[key/filter]: GetEdges(key, filter) as the graph answers it, and - as expectation - what the
+	// graph's own unfiltered answer for that key contains for those kinds ("its answers agree with each other")
+	edgesBy     map[string][]string
+	edgesByWant map[string][]string
 }
 
 func edgeStr(from, to string, k symboldg.SymbolEdgeKind) string { return from + "->" + to + ":" + string(k) }
@@ -222,7 +226,112 @@ func allKeys(m *model, curVer []int) []graphs.SymbolKey {
 
 func sorted(s []string) []string { sort.Strings(s); return s }
 
-func observeModel(m *model, keys []graphs.SymbolKey) obs {
+// A query variant is one way of asking Children/Parents/Descendants (and GetEdges): an edge-kind filter
+// (nil = all kinds; several kinds = their union), a node filter (kinds or a predicate) and a result sorting.
+// The statement's "child/parent/descendant queries return exactly the model's" holds for every variant;
+// sorted variants must return the same multiset as the unsorted ones (ordinal order itself is not judged).
+type variant struct {
+	id        string
+	edgeKinds []symboldg.SymbolEdgeKind
+	nodeKinds []common.SymKind
+	pred      func(baseId string) bool
+	sorting   symboldg.TraversalResultSorting
+	desc      bool // descendants are compared for this variant (node filters prune the walk: not decided by the statement)
+}
+
+func evenLen(b string) bool { return len(b)%2 == 0 }
+
+var variants = func() []variant {
+	vs := []variant{{id: "", desc: true}}
+	name := func(ks []symboldg.SymbolEdgeKind) string {
+		var p []string
+		for _, k := range ks {
+			p = append(p, string(k))
+		}
+		return strings.Join(p, "+")
+	}
+	for _, k := range edgeKinds {
+		vs = append(vs, variant{id: string(k), edgeKinds: []symboldg.SymbolEdgeKind{k}, desc: true})
+	}
+	for i := range edgeKinds {
+		for j := range edgeKinds {
+			if i != j {
+				ks := []symboldg.SymbolEdgeKind{edgeKinds[i], edgeKinds[j]}
+				vs = append(vs, variant{id: name(ks), edgeKinds: ks, desc: i < j})
+			}
+		}
+	}
+	vs = append(vs, variant{id: name(edgeKinds), edgeKinds: edgeKinds, desc: true})
+	// a kind no edge of the simulation carries
+	vs = append(vs, variant{id: "call", edgeKinds: []symboldg.SymbolEdgeKind{symboldg.EdgeKindCall}, desc: true})
+	for _, nk := range []common.SymKind{common.SymKindStruct, common.SymKindField, common.SymKindBuiltin} {
+		vs = append(vs, variant{id: "node:" + string(nk), nodeKinds: []common.SymKind{nk}})
+	}
+	vs = append(vs, variant{id: "node:struct+enum/ty", nodeKinds: []common.SymKind{common.SymKindStruct, common.SymKindEnum}, edgeKinds: []symboldg.SymbolEdgeKind{symboldg.EdgeKindType}})
+	vs = append(vs, variant{id: "pred:even", pred: evenLen})
+	for _, srt := range []struct {
+		n string
+		s symboldg.TraversalResultSorting
+	}{{"asc", symboldg.TraversalSortingOrdinalAsc}, {"desc", symboldg.TraversalSortingOrdinalDesc}} {
+		vs = append(vs, variant{id: srt.n + ":", sorting: srt.s, desc: true})
+		vs = append(vs, variant{id: srt.n + ":ref+ty", sorting: srt.s, edgeKinds: []symboldg.SymbolEdgeKind{symboldg.EdgeKindReference, symboldg.EdgeKindType}, desc: true})
+		vs = append(vs, variant{id: srt.n + ":fld", sorting: srt.s, edgeKinds: []symboldg.SymbolEdgeKind{symboldg.EdgeKindField}, desc: true})
+	}
+	return vs
+}()
+
+// variantsFor: the unfiltered and the single-kind queries are asked after every operation; the whole list after
+// the last operation of a history and after every operation whose order seed is a multiple of 3 (a property
+// of the operation itself, so that shrinking a history keeps it)
+func variantsFor(full bool) []variant {
+	if full {
+		return variants
+	}
+	return variants[:1+len(edgeKinds)]
+}
+
+func (v variant) edgeOK(k symboldg.SymbolEdgeKind) bool {
+	if v.edgeKinds == nil {
+		return true
+	}
+	for _, x := range v.edgeKinds {
+		if x == k {
+			return true
+		}
+	}
+	return false
+}
+
+func (v variant) nodeOK(b string, kind common.SymKind) bool {
+	if v.nodeKinds != nil {
+		ok := false
+		for _, x := range v.nodeKinds {
+			if x == kind {
+				ok = true
+			}
+		}
+		if !ok {
+			return false
+		}
+	}
+	return v.pred == nil || v.pred(b)
+}
+
+func (v variant) behavior() *symboldg.TraversalBehavior {
+	if v.edgeKinds == nil && v.nodeKinds == nil && v.pred == nil && v.sorting == symboldg.TraversalSortingNone {
+		return nil
+	}
+	b := &symboldg.TraversalBehavior{Sorting: v.sorting}
+	b.Filtering.EdgeKinds = v.edgeKinds
+	b.Filtering.NodeKinds = v.nodeKinds
+	if v.pred != nil {
+		p := v.pred
+		b.Filtering.FilterFunc = func(n *symboldg.SymbolNode) bool { return p(n.Id.BaseId()) }
+	}
+	return b
+}
+
+func observeModel(m *model, keys []graphs.SymbolKey, full bool) obs {
 	o := obs{children: map[string][]string{}, parents: map[string][]string{}, desc: map[string][]string{}, byKind: map[string][]string{}}
 	for b, n := range m.nodes {
 		o.nodes = append(o.nodes, fmt.Sprintf("%s|%s|%d", b, n.kind, n.ver))
@@ -234,30 +343,39 @@ func observeModel(m *model, keys []graphs.SymbolKey) obs {
 		o.outgoing = append(o.outgoing, s)
 		o.incoming = append(o.incoming, s)
 	}
-	for _, filter := range append([]symboldg.SymbolEdgeKind{""}, edgeKinds...) {
+	// adjacency once per observation
+	out := map[string][]mEdge{}
+	in := map[string][]mEdge{}
+	for e := range m.edges {
+		out[e.from] = append(out[e.from], e)
+		in[e.to] = append(in[e.to], e)
+	}
+	for _, v := range variantsFor(full) {
 		for _, k := range keys {
 			b := k.BaseId()
 			if m.nodes[b] == nil {
 				continue
 			}
-			id := b + "/" + string(filter)
-			for e := range m.edges {
-				if filter != "" && e.kind != filter {
-					continue
-				}
-				if e.from == b && m.nodes[e.to] != nil {
+			id := b + "/" + v.id
+			for _, e := range out[b] {
+				if v.edgeOK(e.kind) && m.nodes[e.to] != nil && v.nodeOK(e.to, m.nodes[e.to].kind) {
 					o.children[id] = append(o.children[id], e.to)
 				}
-				if e.to == b && m.nodes[e.from] != nil {
+			}
+			for _, e := range in[b] {
+				if v.edgeOK(e.kind) && m.nodes[e.from] != nil && v.nodeOK(e.from, m.nodes[e.from].kind) {
 					o.parents[id] = append(o.parents[id], e.from)
 				}
+			}
+			if !v.desc {
+				continue
 			}
 			// descendants: transitive closure over existing nodes (the root itself only if reachable)
 			seen := map[string]bool{}
 			var walk func(string)
 			walk = func(x string) {
-				for e := range m.edges {
-					if e.from != x || (filter != "" && e.kind != filter) || m.nodes[e.to] == nil || seen[e.to] {
+				for _, e := range out[x] {
+					if !v.edgeOK(e.kind) || m.nodes[e.to] == nil || seen[e.to] {
 						continue
 					}
 					seen[e.to] = true
@@ -278,7 +396,7 @@ func (o obs) norm() obs {
 	sorted(o.edges)
 	sorted(o.outgoing)
 	sorted(o.incoming)
-	for _, mm := range []map[string][]string{o.children, o.parents, o.desc, o.byKind} {
+	for _, mm := range []map[string][]string{o.children, o.parents, o.desc, o.byKind, o.edgesBy, o.edgesByWant} {
 		for k := range mm {
 			sorted(mm[k])
 		}
@@ -305,7 +423,7 @@ func dedup(s []string) []string {
 	return out
 }
 
-func observeGraph(g symboldg.SymbolGraphBuilder, m *model, keys []graphs.SymbolKey) obs {
+func observeGraph(g symboldg.SymbolGraphBuilder, m *model, keys []graphs.SymbolKey, full bool) obs {
 	o := obs{children: map[string][]string{}, parents: map[string][]string{}, desc: map[string][]string{}, byKind: map[string][]string{}}
 	verOf := func(n *symboldg.SymbolNode) int {
 		if n.Version == nil {
@@ -335,25 +453,45 @@ func observeGraph(g symboldg.SymbolGraphBuilder, m *model, keys []graphs.SymbolK
 		o.edges = append(o.edges, s)
 	}
 	o.outgoing, o.incoming = dedup(o.outgoing), dedup(o.incoming)
-	for _, filter := range append([]symboldg.SymbolEdgeKind{""}, edgeKinds...) {
-		var beh *symboldg.TraversalBehavior
-		if filter != "" {
-			beh = &symboldg.TraversalBehavior{Filtering: symboldg.TraversalFilter{EdgeKinds: []symboldg.SymbolEdgeKind{filter}}}
-		}
+	for _, v := range variantsFor(full) {
+		beh := v.behavior()
 		for _, k := range keys {
 			n := g.Get(k)
 			if n == nil {
 				continue
 			}
-			id := k.BaseId() + "/" + string(filter)
+			id := k.BaseId() + "/" + v.id
 			if c := ids(g.Children(n, beh)); len(c) > 0 {
 				o.children[id] = c
 			}
 			if p := ids(g.Parents(n, beh)); len(p) > 0 {
 				o.parents[id] = p
 			}
+			if !v.desc {
+				continue
+			}
 			if d := dedup(ids(g.Descendants(n, beh))); len(d) > 0 {
 				o.desc[id] = d
+			}
+		}
+	}
+	// GetEdges under every kind filter (each order of a pair): the filtered answer must be exactly the part of
+	// the unfiltered answer that carries those kinds
+	o.edgesBy, o.edgesByWant = map[string][]string{}, map[string][]string{}
+	for _, k := range keys {
+		all := g.GetEdges(k, nil)
+		for _, v := range variantsFor(full) {
+			if v.edgeKinds == nil || v.nodeKinds != nil || v.pred != nil || v.sorting != symboldg.TraversalSortingNone {
+				continue
+			}
+			id := k.BaseId() + "/" + v.id
+			for _, d := range g.GetEdges(k, v.edgeKinds) {
+				o.edgesBy[id] = append(o.edgesBy[id], edgeStr(d.Edge.From.BaseId(), d.Edge.To.BaseId(), d.Edge.Kind))
+			}
+			for _, d := range all {
+				if v.edgeOK(d.Edge.Kind) {
+					o.edgesByWant[id] = append(o.edgesByWant[id], edgeStr(d.Edge.From.BaseId(), d.Edge.To.BaseId(), d.Edge.Kind))
+				}
 			}
 		}
 	}
@@ -403,6 +541,9 @@ func compare(mo, go_ obs) (string, string) {
 	}
 	if d := cmpList("edges", mo.edges, go_.edges); d != "" {
 		return "edges", d
+	}
+	if d := cmpMap("GetEdges", go_.edgesByWant, go_.edgesBy); d != "" {
+		return "edges-filtered", strings.Replace(strings.Replace(d, "model", "unfiltered answer restricted to the kinds", 1), "vs graph", "vs filtered answer", 1)
 	}
 	if d := cmpMap("FindByKind", mo.byKind, go_.byKind); d != "" {
 		return "find-by-kind", d
@@ -850,7 +991,7 @@ func runHistory(t *rapid.T) {
 	drawn := rapid.SliceOfN(opGen, 1, 60).Draw(t, "ops")
 	var hist []op
 	var prev *op
-	for _, o := range drawn {
+	for oi, o := range drawn {
 		if o.Kind == "Repeat" {
 			// duplicate delivery: the previous operation verbatim, under another order schedule
 			if prev == nil {
@@ -881,8 +1022,9 @@ func runHistory(t *rapid.T) {
 		}
 		keys := allKeys(w.m, w.curVer)
 		verifsim.Configure(&verifsim.Spec{Seed: o.Seed ^ 0x5a5a, PerCall: true, All: true})
-		g1 := observeGraph(&w.g, w.m, keys)
-		mo := observeModel(w.m, keys)
+		full := oi == len(drawn)-1 || o.Seed%3 == 0
+		g1 := observeGraph(&w.g, w.m, keys, full)
+		mo := observeModel(w.m, keys, full)
 		class, detail := compare(mo, g1)
 		if class == "" && errText != "" {
 			class, detail = "unexpected-error", errText
@@ -890,7 +1032,7 @@ func runHistory(t *rapid.T) {
 		if class == "" {
 			// I4: the same observations under another order schedule
 			verifsim.Configure(&verifsim.Spec{Seed: o.Seed ^ 0xa5a5a5, PerCall: true, All: true})
-			g2 := observeGraph(&w.g, w.m, keys)
+			g2 := observeGraph(&w.g, w.m, keys, full)
 			if c2, d2 := compare(g1, g2); c2 != "" {
 				class, detail = "schedule-dependent-answer", d2
 			}
